@@ -275,8 +275,9 @@ func schedRun(args []string) int {
 	tag := 0
 	thr := time.Hour
 	minute, hour := int64(time.Minute), int64(time.Hour)
-	groups := []string{"default", "g1"}
-	names := []string{"a", "b", "ab"}
+	// the pools contain two keys whose "group::name" renderings coincide and keys differing only by case
+	groups := []string{"default", "g1", "etl", "etl::daily", "G1"}
+	names := []string{"a", "b", "ab", "daily::load", "load", "A"}
 	offsets := []int64{-3 * hour, -2 * hour, -90 * minute, -30 * minute, -10 * minute, 20 * minute, hour, 2 * hour, 5 * hour}
 
 	for s := 0; s < *nseq; s++ {
@@ -302,6 +303,14 @@ func schedRun(args []string) int {
 		l := 3 + r.Intn(*maxLen)
 		for i := 0; i < l; i++ {
 			g, n := groups[r.Intn(2)], names[r.Intn(3)]
+			switch r.Intn(8) {
+			case 0:
+				g, n = "etl", "daily::load"
+			case 1:
+				g, n = "etl::daily", "load"
+			case 2:
+				g, n = []string{"g1", "G1"}[r.Intn(2)], []string{"a", "A"}[r.Intn(2)]
+			}
 			op := []string{"schedule", "schedule", "schedule", "step", "step", "step", "pause", "pause", "resume", "resume", "delete", "get", "keys", "clear", "dump"}[r.Intn(15)]
 			if op != "schedule" && len(abs) > 0 && r.Intn(10) < 7 { // mostly address jobs that exist
 				var ks []string
@@ -487,7 +496,10 @@ func schedRun(args []string) int {
 						flagV("C08 " + op + " consumed a fire time of the trigger")
 					}
 				}
-				if err == nil {
+				if err == nil && a == nil && op != "get" {
+					flagV(fmt.Sprintf("C09 %s succeeded on a key that was never scheduled (keys are (group, name) pairs)", op))
+				}
+				if err == nil && a != nil {
 					switch op {
 					case "delete":
 						delete(abs, key)
